@@ -1,2 +1,3 @@
 pub mod grammar;
 pub mod pos;
+pub mod core;
